@@ -161,3 +161,11 @@ def evaluates(s: str) -> bool:
         return True
     except Exception:   # noqa: BLE001
         return False
+
+
+def evaluates_to_type(s: str) -> bool:
+    try:
+        v = L.evaluate(s, ns())
+    except Exception:   # noqa: BLE001
+        return False
+    return not isinstance(v, (list, tuple, dict, set, int, float, bytes))
